@@ -406,7 +406,7 @@ def c18_execute_mixed(spec, workdir):
 
 PROPS = {
     "C13": {"gen": c13_gen, "execute": c13_execute, "engine": "B",
-            "runs": {"quick": 1200, "thorough": 60000},
+            "runs": {"quick": 1200, "thorough": 40000},
             "expected_probes": ["rel_order_both_ok", "rel_config_both_ok", "rel_reject", "probe:fault_expect_reject",
                                 "probe:config_fault_fired", "probe:recovery_checks", "open_error:EACCES", "read_error",
                                 "torn", "corrupt:dir"],
@@ -432,7 +432,7 @@ PROPS = {
                     "non-trivial = the run decoded a multi-slice sweep, or checked bucket functions/conversions; "
                     "distinct = distinct run digests among non-trivial runs"},
     "C01": {"gen": c01_gen, "execute": c01_execute, "engine": "A",
-            "runs": {"quick": 4000, "thorough": 150000},
+            "runs": {"quick": 4000, "thorough": 120000},
             "expected_probes": ["probe:sibling_pairs", "probe:decoded_responses", "probe:twin_compared"],
             "rule": "one evaluation = one seeded simulated session on a world with >= 2 parties (2-4 inputs, optional "
                     "climatology, differing coverage and missingness, inputs without obs): interleaved client scripts "
@@ -442,7 +442,7 @@ PROPS = {
                     "non-trivial = at least one pair of sibling responses from different inputs was compared; "
                     "distinct = distinct run digests among non-trivial runs"},
     "C18": {"gen": c18_gen_mixed, "execute": c18_execute_mixed, "engine": "A+B",
-            "runs": {"quick": 3000, "thorough": 150000},
+            "runs": {"quick": 3000, "thorough": 120000},
             "rule": "one evaluation = one seeded simulated session (generated world of 1-4 inputs +/- climatology "
                     "materialised as text/NetCDF files, constructor configuration, 2-12 (quick) / up to 40 (thorough) "
                     "scheduled operations from 1-4 interleaved clients with fault/environment operations); "
